@@ -37,7 +37,12 @@ func specCmd(args []string) int {
 	arity := fs.Int("arity", 2, "maximum arity")
 	forms := fs.String("forms", strings.Join(gen.SpecForms, ","), "call forms")
 	fs.Parse(args)
-	cases := gen.EnumerateSpecs(*arity, splitList(*forms))
+	var cases []gen.SpecCase
+	if *forms == "twokeys" {
+		cases = gen.TwoKeySpecCases()
+	} else {
+		cases = gen.EnumerateSpecs(*arity, splitList(*forms))
+	}
 	si, sn := parseShard(*shard)
 	o := newOut(*outp)
 	defer o.close()
